@@ -29,8 +29,8 @@ NPROC = os.cpu_count() or 16
 
 TIERS = {
     # explore: list of (first worker id, workers, runs per worker, concurrency bias %, restart-before-run %)
-    "quick": dict(explore=[(0, 10, 3000, 30, 75), (50, 1, 2000, 30, 10), (60, 1, 2000, 30, 1), (100, 4, 1400, 90, 75)], seconds_cap=90, sweeps=1, hash_orders=8, determinism_runs=150, miri_seeds=0, max_minimise=3, fresh_sample=48),
-    "thorough": dict(explore=[(0, 10, 3000, 30, 75), (50, 1, 2000, 30, 10), (60, 1, 2000, 30, 1), (100, 4, 1400, 90, 75), (1000, 10, 40000, 30, 75), (1050, 1, 30000, 30, 10), (1060, 1, 30000, 30, 1), (2000, 4, 12000, 90, 75)], seconds_cap=540, sweeps=8, hash_orders=64, determinism_runs=400, miri_seeds=16, max_minimise=6, fresh_sample=256),
+    "quick": dict(explore=[(0, 10, 3000, 30, 75), (50, 1, 2000, 30, 10), (60, 1, 2000, 30, 1), (100, 4, 1400, 90, 75)], seconds_cap=90, sweeps=1, hash_orders=8, determinism_runs=150, miri_seeds=0, max_minimise=3, fresh_sample=48, hot_keys=2),
+    "thorough": dict(explore=[(0, 10, 3000, 30, 75), (50, 1, 2000, 30, 10), (60, 1, 2000, 30, 1), (100, 4, 1400, 90, 75), (1000, 10, 40000, 30, 75), (1050, 1, 30000, 30, 10), (1060, 1, 30000, 30, 1), (2000, 4, 12000, 90, 75)], seconds_cap=540, sweeps=8, hash_orders=64, determinism_runs=400, miri_seeds=16, max_minimise=6, fresh_sample=256, hot_keys=8),
 }
 
 
@@ -524,6 +524,8 @@ def run_check(tier, seed):
     for i in range(cfg["hash_orders"] + 1):
         out = os.path.join(work, "hash_%d.json" % i)
         jobs.append(("hashorder%d" % i, [BIN, "hashorder", "--seed", str(seed), "--index", str(i), "--out", out], out))
+    out = os.path.join(work, "hotkey.json")
+    jobs.append(("hotkey", [BIN, "hotkey", "--seed", str(seed), "--keys", str(cfg["hot_keys"]), "--out", out], out))
     explore_ids = []
     for (w0, nw, runs, conc, rpct) in cfg["explore"]:
         for w in range(w0, w0 + nw):
@@ -598,6 +600,10 @@ def run_check(tier, seed):
                     cands.append({"obligation": "P", "key": "", "detail": v["detail"], "history": v["history"], "source": "sweep %d" % d["index"]})
                 else:
                     cands.append(sweep_candidate(v, d))
+        elif d["mode"] == "hotkey":
+            HOT["stats"] = {k: d[k] for k in ("keys", "lookups_per_key", "evaluations", "wall_s")}
+            for v in d["violations"]:
+                cands.append({"obligation": "R", "key": v["key"], "detail": v["detail"], "history": v["history"], "source": "hot-key sweep"})
         elif d["mode"] == "hashorder":
             hashparts.append(d)
             for v in d["violations"]:
@@ -822,6 +828,7 @@ def sweep_candidate(v, d):
 
 MIRI_RESULT = {"stats": None}
 FRESH = {"compared": 0, "distinct_keys": 0}
+HOT = {"stats": None}
 
 
 def write_evidence(tier, seed, t0, explore, sweeps, hashres, det_ok, det_n, cross_compared, cross_keys_multi, confirmed, known_hits, build_s, harness):
@@ -852,7 +859,7 @@ def write_evidence(tier, seed, t0, explore, sweeps, hashres, det_ok, det_n, cros
     runs = tot("runs")
     wall = time.time() - t0
     sim_wall = max([d["wall_s"] for d in explore] + [0.001])
-    evaluations = tot("evaluations") + sum(s["evaluations"] for s in sweeps) + (hashres["evaluations"] if hashres else 0)
+    evaluations = tot("evaluations") + sum(s["evaluations"] for s in sweeps) + (hashres["evaluations"] if hashres else 0) + ((HOT["stats"] or {}).get("evaluations", 0))
     lock_names = explore[0]["lock_names"] if explore else []
     samples = []
     for d in explore[:4]:
@@ -874,6 +881,7 @@ def write_evidence(tier, seed, t0, explore, sweeps, hashres, det_ok, det_n, cros
         "comparisons_with_earlier_evaluations_in_process": tot("comparisons"),
         "refinement_checks_from_ym_vs_new": tot("r_checks") + sum(s["evaluations"] for s in sweeps),
         "value_handle_evaluations": tot("handle_evaluations"),
+        "hot_key_sweep": HOT["stats"],
         "fresh_process_sample": {"evaluations_compared_with_the_same_query_alone_in_a_new_process": FRESH["compared"], "distinct_keys": FRESH["distinct_keys"]},
         "cross_process": {"pool_keys_seen_in_2plus_processes": cross_keys_multi, "comparisons": cross_compared, "processes": len(explore)},
         "fault_kinds_fired": {
